@@ -38,10 +38,13 @@ TEXTS = {"t1": "CREATE TABLE \"t1\" (a int, b varchar(3) DEFAULT 'x');\n",
          # collected (trailing / inline) comments: what one file leaves behind must not show up in the next file's result
          "t6": "CREATE TABLE c (x int); -- note one\nCREATE TABLE d (y int /* in */, z int);\n",
          # the same with CRLF line ends (the file is read in text mode, the in-memory reference gets the decoded bytes)
-         "t7": "CREATE TABLE c (x int); -- note one\r\nCREATE TABLE d (\r\n  y int, /* in */\r\n  z int\r\n);\r\n-- tail\r\n"}
+         "t7": "CREATE TABLE c (x int); -- note one\r\nCREATE TABLE d (\r\n  y int, /* in */\r\n  z int\r\n);\r\n-- tail\r\n",
+         # CRLF line ends AND a line break inside a quoted literal
+         "t8": "CREATE TABLE e (\r\n  x int,\r\n  y varchar(20) DEFAULT 'first\r\nsecond'\r\n);\r\nCREATE TABLE f (z int);\r\n"}
 ENC = ["utf-8", "utf-16", "latin-1", "cp1251"]
 NAMES = ["a.sql", "b.c.sql", "noext", "UP.SQL", "with space.sql", ".hidden.sql", "d.ddl", "e.hql", "f.bql", "g.txt",
-         "b.v2.sql"]  # shares the text before its first dot with b.c.sql: two inputs, two dumps
+         "b.v2.sql",  # shares the text before its first dot with b.c.sql: two inputs, two dumps
+         "sql"]  # a file named like an extension, without any dot: not a DDL file
 TSTATES = ["missing", "nested", "empty", "stale"]
 FLAGS = ["-t", "-o", "-v", "--no-dump"]
 
@@ -200,6 +203,7 @@ def cli_case(case):
         os.makedirs(src)
         for n in NAMES:
             open(os.path.join(src, n), "w").write(table_for(n))
+        os.makedirs(os.path.join(src, "ddl"))  # a sub-directory named like an extension (no dot): skipped
         mode = "hql" if "-o" in flags else "sql"
         tgt = os.path.join(d, "tg") if "-t" in flags else os.path.join(work, "schemas")
         argv = []
